@@ -627,7 +627,7 @@ impl Formatter {
         if self.html {
           format!("<u class=\"mech-u\">{}</u>", n.to_string())
         } else {
-          format!("_{}_", n.to_string())
+          format!("__{}__", n.to_string())
         }
       },
       ParagraphElement::Strikethrough(n) => {
@@ -649,7 +649,7 @@ impl Formatter {
         if self.html {
           format!("<span class=\"mech-inline-mech-code-formatted\">{}</span>", result)
         } else {
-          format!("{{{}}}", result)
+          format!("{{{{{}}}}}", result.trim_end())
         }
       },
       ParagraphElement::EvalInlineMechCode(expr) => {
@@ -684,7 +684,7 @@ impl Formatter {
         x => format!("{{{:?}}}", x)
       };
       let formatted_comment = match cmmnt {
-        Some(cmmt) => self.comment(cmmt),
+        Some(cmmt) => if self.html { self.comment(cmmt) } else { format!(" {}", self.comment(cmmt)) },
         None => String::new(),
       };
       if self.html {
@@ -750,7 +750,11 @@ impl Formatter {
         </div>", block_id, block_class, style_attr, namespace_str, src, output_node)
       }
     } else {
-      format!("```mech{}\n{}\n```", src, format!(":{}", disabled_tag))
+      let tag = if block.config.disabled { ":disabled".to_string() }
+        else if block.config.hidden { ":hidden".to_string() }
+        else if !namespace_str.is_empty() { format!(":{}", namespace_str) }
+        else { "".to_string() };
+      format!("```mech{}\n{}```\n", tag, src)
     }
   }
 
@@ -873,7 +877,7 @@ impl Formatter {
     if self.html {
       format!("<div id=\"abstract\" class=\"mech-abstract\">{}</div>", abstract_paragraph)
     } else {
-      format!("{}\n", abstract_paragraph)
+      format!("%% {}\n", abstract_paragraph)
     }
   }
 
@@ -882,7 +886,7 @@ impl Formatter {
     if self.html {
       format!("<div id=\"{}\" equation=\"{}\" class=\"mech-equation\"></div>",id, node.to_string())
     } else {
-      format!("$$ {}\n", node.to_string())
+      format!("$${}\n", node.to_string())
     }
   }
 
@@ -891,7 +895,7 @@ impl Formatter {
     if self.html {
       format!("<div id=\"{}\" class=\"mech-diagram mermaid\">{}</div>",id, node.to_string())
     } else {
-      format!("```{{diagram}}\n{}\n```", node.to_string())
+      format!("```diagram\n{}```\n", node.to_string())
     }
   }
 
@@ -972,7 +976,7 @@ impl Formatter {
     if self.html {
       format!("<div class=\"mech-success-block\">{}</div>",success_paragraph)
     } else {
-      format!("(✓)>> {}\n",success_paragraph)
+      format!("(✓)> {}\n",success_paragraph)
     }
   }
 
@@ -981,7 +985,7 @@ impl Formatter {
     if self.html {
       format!("<div class=\"mech-warning-block\">{}</div>",warning_paragraph)
     } else {
-      format!("(!)>> {}\n",warning_paragraph)
+      format!("(!)> {}\n",warning_paragraph)
     }
   }
 
@@ -999,7 +1003,7 @@ impl Formatter {
     if self.html {
       format!("<div class=\"mech-error-block\">{}</div>",error_paragraph)
     } else {
-      format!("(✗)>> {}\n",error_paragraph)
+      format!("(✗)> {}\n",error_paragraph)
     }
   }
 
@@ -1084,7 +1088,7 @@ impl Formatter {
       SectionElement::QuestionBlock(n) => self.question_block(n),
       SectionElement::Citation(n) => self.citation(n),
       SectionElement::CodeBlock(n) => self.code_block(n),
-      SectionElement::Comment(n) => self.comment(n),
+      SectionElement::Comment(n) => { let c = self.comment(n); if self.html { c } else { format!("{}\n", c) } },
       SectionElement::Diagram(n) => self.diagram(n),
       SectionElement::Equation(n) => self.equation(n),
       SectionElement::Prompt(n) => self.prompt(n),
@@ -1438,16 +1442,16 @@ impl Formatter {
         .replace(">", "&gt;");
       format!("<pre class=\"mech-code-block\">{}</pre>",escaped_code)
     } else {
-      format!("```\n{}\n```",code)
+      format!("```\n{}```\n",code)
     }
   }
 
   pub fn comment(&mut self, node: &Comment) -> String {
-    let comment_text = self.paragraph(&node.paragraph);
     if self.html {
+      let comment_text = self.paragraph(&node.paragraph);
       format!("<span class=\"mech-comment\"><span class=\"mech-comment-sigil\">--</span>{}</span>", comment_text)
     } else {
-      format!("{}\n",comment_text)
+      format!("--{}", self.inline_paragraph(&node.paragraph))
     }
   }
 
@@ -1544,7 +1548,7 @@ impl Formatter {
         x => todo!("Unhandled MechCode: {:#?}", x),
       };
       let formatted_comment = match cmmnt {
-        Some(cmmt) => self.comment(cmmt),
+        Some(cmmt) => if self.html { self.comment(cmmt) } else { format!(" {}", self.comment(cmmt)) },
         None => String::new(),
       };
       if self.html {
@@ -1825,7 +1829,7 @@ impl Formatter {
     for (i, state) in node.states.iter().enumerate() {
       let v = self.state_definition(state);
       let state_arm = if node.states.len() == 1 {
-        format!("{} {}", "└", v)
+        format!("{} {}{}", "└", v, ".")
       } else if i == 0 {
         format!("{} {}", "├", v)
       } else if i == node.states.len() - 1 {
@@ -1957,8 +1961,10 @@ impl Formatter {
       <span class=\"mech-state-variables\">{}</span>
       <span class=\"mech-right-paren\">)</span>
       </div>",name,state_variables)
+    } else if node.state_variables.is_none() {
+      format!(":{}", name)
     } else {
-      format!("{}({})", name, state_variables)
+      format!(":{}({})", name, state_variables)
     }
   }
 
@@ -2480,11 +2486,12 @@ impl Formatter {
   pub fn swizzle(&mut self, node: &Vec<Identifier>) -> String {
     let mut src = "".to_string();
     for (i, ident) in node.iter().enumerate() {
-      let s = self.dot(ident);
       if i == 0 {
-        src = format!("{}", s);
+        src = self.dot(ident);
+      } else if self.html {
+        src = format!("{},{}", src, self.dot(ident));
       } else {
-        src = format!("{},{}", src, s);
+        src = format!("{},{}", src, ident.to_string());
       }
     }
     if self.html {
@@ -2569,6 +2576,8 @@ impl Formatter {
     }
     if self.html {
       format!("<span class=\"mech-map\"><span class=\"mech-start-brace\">{{</span>{}<span class=\"mech-end-brace\">}}</span></span>",src)
+    } else if node.elements.is_empty() {
+      "{:}".to_string()
     } else {
       format!("{{{}}}", src)
     }
@@ -2614,7 +2623,7 @@ impl Formatter {
         <span class=\"mech-right-paren\">)</span>
       </span>", name, value)
     } else {
-      format!("{}{}", name, value)
+      format!(":{}({})", name, value)
     }
   }
 
@@ -2632,7 +2641,9 @@ impl Formatter {
     if self.html {
       format!("<table class=\"mech-table\">{}<tbody class=\"mech-table-body\">{}</tbody></table>",header,rows)
     } else {
-      format!("{}{}", header, rows)
+      let fields = node.header.0.iter().map(|f| self.field(f)).collect::<Vec<_>>().join(" ");
+      let rows = node.rows.iter().map(|r| self.table_row(r)).collect::<Vec<_>>().join(" | ");
+      format!("| {} | {} |", fields, rows)
     }
   }
 
@@ -2689,7 +2700,7 @@ impl Formatter {
     if self.html {
       format!("<div class=\"mech-field\"><span class=\"mech-field-name\">{}</span><span class=\"mech-field-kind\">{}</span></div>",name,kind)
     } else {
-      format!("{}: {}", name, kind)
+      format!("{}{}", name, kind)
     }
   }
 
@@ -2915,27 +2926,29 @@ pub fn matrix_column_elements(&mut self, column_elements: &[&MatrixColumn]) -> S
         format!("[{}]{}", src, src2)
       },
       Kind::Record(kinds) => {
+        let (lt, gt) = if self.html { ("&lt;", "&gt;") } else { ("<", ">") };
         let mut src = "".to_string();
         for (i, (ident, kind)) in kinds.iter().enumerate() {
           let k = self.kind(kind);
           let ident_s = ident.to_string();
           if i == 0 {
-            src = format!("{}&lt;{}&gt;", ident_s, k);
+            src = format!("{}{}{}{}", ident_s, lt, k, gt);
           } else {
-            src = format!("{},{}&lt;{}&gt;", src, ident_s, k);
+            src = format!("{},{}{}{}{}", src, ident_s, lt, k, gt);
           }
         }
         format!("{{{}}}", src)
       },
       Kind::Table((kinds, literal)) => {
+        let (lt, gt) = if self.html { ("&lt;", "&gt;") } else { ("<", ">") };
         let mut src = "".to_string();
         for (i, (ident,kind)) in kinds.iter().enumerate() {
           let k = self.kind(kind);
           let ident_s = ident.to_string();
           if i == 0 {
-            src = format!("{}&lt;{}&gt;", ident_s, k);
+            src = format!("{}{}{}{}", ident_s, lt, k, gt);
           } else {
-            src = format!("{},{}&lt;{}&gt;", src, ident_s, k);
+            src = format!("{},{}{}{}{}", src, ident_s, lt, k, gt);
           }
         }
         let mut src2 = "".to_string();
@@ -3185,7 +3198,11 @@ pub fn matrix_column_elements(&mut self, column_elements: &[&MatrixColumn]) -> S
       RealNumber::Hexadecimal(token) => format!("0x{}", token.to_string()),
       RealNumber::Octal(token) => format!("0o{}", token.to_string()),
       RealNumber::Binary(token) => format!("0b{}", token.to_string()),
-      RealNumber::Scientific(((whole, part), (sign, ewhole, epart))) => format!("{}.{}e{}{}.{}", whole.to_string(), part.to_string(), if *sign { "-" } else { "+" }, ewhole.to_string(), epart.to_string()),
+      RealNumber::Scientific(((whole, part), (sign, ewhole, epart))) => {
+        let mantissa = if part.chars.is_empty() { whole.to_string() } else { format!("{}.{}", whole.to_string(), part.to_string()) };
+        let exponent = if epart.chars.is_empty() { ewhole.to_string() } else { format!("{}.{}", ewhole.to_string(), epart.to_string()) };
+        format!("{}e{}{}", mantissa, if *sign { "-" } else { "" }, exponent)
+      },
       RealNumber::Rational((numerator, denominator)) => format!("{}/{}", numerator.to_string(), denominator.to_string()),
       RealNumber::TypedInteger((token, kind_annotation)) => {
         let num = token.to_string();
